@@ -199,13 +199,24 @@ TERM_UNPROVEN = set()
 TERM_ADVANCERS = {("pdf_extractor.py", "_TableExtractor._extract", 0): {"_extract_word_date_header"}}
 
 
+def _locked_term_files():
+    """base names of the files the lock holds termination obligations for: a file whose last `while` was rewritten is still scanned"""
+    import json
+    import os
+    try:
+        lock = json.load(open(os.path.join(os.path.dirname(os.path.dirname(os.path.abspath(__file__))), "obligations.lock.json"))).get("C01", {})
+        return {k.split("/", 1)[1].split("::")[0] for k in lock if "/decreases#while-" in k and "::" in k}
+    except Exception:  # noqa
+        return set()
+
+
 def _term_files(repo=None):
     from pyvc import term
     out = []
     for f in loader.all_package_files(repo):
         if "/sharepoint_io/" in f:
             continue
-        if term.while_loops(loader.module(f, repo)):
+        if term.while_loops(loader.module(f, repo)) or f.split("/")[-1] in _locked_term_files():
             out.append(f)
     return out
 
@@ -356,4 +367,8 @@ ASSUMPTIONS = ["EXC-ANY: un-contracted calls may raise any Exception subclass (B
                "PY-LOGGING (cli.main): a log record of any logger reaches stderr unless the ROOT logger has a handler (the code adds a quiet one, or the embedding "
                "application configured logging before the call) or logging.disable(CRITICAL) was called; handlers of named loggers only serve their own subtree"]
 
+# `decreases#while-k` obligations are enumerated from the source (one per `while` found by pyvc.term.while_loops): a locked one may
+# disappear when the loop is no longer in the code, as long as the per-file scan obligation (`<file>::*/decreases#for-loops-finite`,
+# produced by the same run over the same file) is there -- the remaining and the new loops (a helper the loop moved into) get their own
+LOCK_FILE_COVERAGE = {"decreases#while-": "::*/decreases#for-loops-finite"}
 REPLAY_UNKNOWN = True    # undecided / out-of-subset items are searched natively (replay) before being reported UNDECIDED
